@@ -103,6 +103,8 @@ pub struct PktRec {
     pub sent_at_ms: u64,
     pub flush_no: u64,
     pub handed: u32,
+    /// receiver-side time of the most recent handover
+    pub last_handed_ms: u64,
     /// injected by the harness (hostile), not emitted by the library
     pub hostile: bool,
 }
@@ -617,7 +619,7 @@ impl World {
                 return Err(Fail::new("emitted_undecodable", "the library emitted a packet its own decoder rejects"));
             }
             let pid = self.packets.len();
-            self.packets.push(PktRec { dir: d, bytes, seq, info, sent_at_ms: self.now_ms, flush_no, handed: 0, hostile: false });
+            self.packets.push(PktRec { dir: d, bytes, seq, info, sent_at_ms: self.now_ms, flush_no, handed: 0, last_handed_ms: 0, hostile: false });
             self.dirs[d.idx()].seq_to_pid.insert(seq, pid);
             pids.push(pid);
         }
@@ -967,6 +969,7 @@ impl World {
             return Ok(());
         }
         self.packets[pid].handed += 1;
+        self.packets[pid].last_handed_ms = self.now_ms;
         let seq = self.packets[pid].seq;
         let info = self.packets[pid].info.clone();
         let now = self.now_ms;
